@@ -76,6 +76,19 @@ func init() {
 	for _, t := range oddKinds {
 		mutOps = append(mutOps, "iri-kind-"+t)
 	}
+	mutOps = append(mutOps, "own-inbox", "own-outbox", "own-actor", "own-followers", "iri-pagedcycle")
+}
+
+// a remote collection whose pages point at each other for ever (first -> page 1 -> next page 2 -> next page 1 ...)
+const iriPaged = "https://" + hostR + "/hostile/paged"
+
+func pagedCycleDocs() []DocSpec {
+	p1, p2 := iriPaged+"?page=1", iriPaged+"?page=2"
+	return []DocSpec{
+		{iriPaged, mustJSON(J{"@context": asCtx, "type": "OrderedCollection", "id": iriPaged, "totalItems": 2, "first": p1})},
+		{p1, mustJSON(J{"@context": asCtx, "type": "OrderedCollectionPage", "id": p1, "partOf": iriPaged, "next": p2, "orderedItems": []string{"https://" + hostR + "/u/dave"}})},
+		{p2, mustJSON(J{"@context": asCtx, "type": "OrderedCollectionPage", "id": p2, "partOf": iriPaged, "next": p1, "prev": p1, "orderedItems": []string{"https://" + hostR + "/u/erin"}})},
+	}
 }
 
 func setPath(root interface{}, p jpath, op string) interface{} {
@@ -108,6 +121,12 @@ func setPath(root interface{}, p jpath, op string) interface{} {
 		repl = iriArray
 	case "relative":
 		repl = "/relative/ref"
+	case "own-inbox", "own-outbox", "own-actor", "own-followers":
+		// an IRI the request itself works with (the receiving actor of every corpus scenario is alice on a.example)
+		me := actorDir(hostA, "alice")
+		repl = map[string]string{"own-inbox": me.Inbox, "own-outbox": me.Outbox, "own-actor": me.ID, "own-followers": me.Followers}[op]
+	case "iri-pagedcycle":
+		repl = iriPaged
 	default:
 		if strings.HasPrefix(op, "iri-kind-") {
 			repl = iriKind(strings.TrimPrefix(op, "iri-kind-"))
@@ -321,6 +340,7 @@ func driveC11(c *DriveCtx, r *Rng, k int) {
 			DocSpec{iriIncomplete, mustJSON(J{"@context": asCtx, "type": "Person", "id": iriIncomplete})},
 			DocSpec{iriArray, json.RawMessage(`[{"type":"Person"}]`)})
 		sp.World.Remote = append(sp.World.Remote, oddKindDocs()...)
+		sp.World.Remote = append(sp.World.Remote, pagedCycleDocs()...)
 		return sp
 	}
 	rr := r.Fork("knobs")
